@@ -33,7 +33,11 @@ CHECKS['C20'] = {
           'octet offset of a write. Record sizes: start-up reads the last line whatever its length (octet-level model, '
           'C20_recovery_reads_last_line, C20_recovery_octets_refine) and sizes/thresholds never influence numbering '
           '(C20_recovery_independent_of_sizes); the check writes records of 46 to 70001 octets (thorough 2^20+1) through the real '
-          'callbacks: restart right after them, thresholds below/at/above them, torn at every block boundary.',
+          'callbacks: restart right after them, thresholds below/at/above them, torn at every block boundary. Peer addresses: '
+          'logs are keyed by the lower-cased address (explicit in the model); spelling irrelevant, peers of one handler '
+          'independent, audit for every peer (C20_peer_spelling_irrelevant, C20_peers_independent, C20_audit_every_peer); the '
+          'check runs IPv4 / IPv6 lower-, upper-, mixed-case addresses, changing spellings and two peers per handler x rotations '
+          'x restarts.',
   'note': 'abstract file system (append/truncate/getsize; fsync-per-write assumption checked at run time); complete JSON <=> parseable '
           '(validated at every swept offset); file names sort in creation order (driven clock); simplejson stub',
   'technique': 'Coq proof (induction over histories) + refutation witnesses + model/implementation correspondence with crash injection at every byte offset',
@@ -137,11 +141,11 @@ SESSION_NOTE = ('FSM methods regenerated from yabgp/core/fsm.py on every run (fa
                 'Twisted is replaced by the deterministic stub in harness/stubs; decoders enter as parameters. ')
 CHECKS['C01'] = {
   'text': 'Coq theorem: for every world of the single-connection regime (any timers, hold times, history) and every (state, event) pair the RFC 4271 profile '
-          '(spec/RfcFsm.v, written from the RFC) lets occur, outside five listed departures, the reaction of the generated FSM method - next state, NOTIFICATION '
+          '(spec/RfcFsm.v, written from the RFC) lets occur, outside two listed departures, the reaction of the generated FSM method - next state, NOTIFICATION '
           'code/subcode, close, messages, new attempt, restart pending - is the prescribed one, and ignored events change nothing (C01_conforms); the departures are '
           'exactly the listed cells (C01_departures_exact, known findings); Established only after OPEN then KEEPALIVE; error rows notify-close-Idle. Oracle: the same '
           'Coq table evaluated on the reactions of the real code for every (state, event) edge reached by exhaustive de-duplicated exploration.',
-  'note': SESSION_NOTE + 'Active state and (state, event) pairs that cannot occur in the profile are excluded by [applicable]; 5 known findings C01-*; the mapping from wire '
+  'note': SESSION_NOTE + 'Active state and (state, event) pairs that cannot occur in the profile are excluded by [applicable]; 2 known findings C01-* (three more departures were repaired: 8b5b420, 0d4b4a7, 8dcd724); the mapping from wire '
           'messages to RFC events is the dispatch glue (C04/C05/C10)',
   'technique': 'Coq proof (symbolic execution of the generated FSM against an RFC table) + translator + exploration correspondence',
 }
